@@ -90,6 +90,10 @@ func genC14(seed uint64) *Scenario {
 	if c14Thorough && r.chance(1, 4) {
 		ncl = 2 + r.n(4) // up to 5 concurrent deadlines
 	}
+	crowd := r.chance(1, 14)
+	if crowd {
+		ncl = 6 + r.n(11) // a crowd of concurrent deadlines (6-16 callers, a call or two each)
+	}
 	mode := r.n(10)
 	cfg := vsim.Config{Policy: vsim.Fair, Quantum: 50 + r.i64(200), MaxSteps: 60_000_000, PoolMode: vsim.PoolRandom, MissProb: 200, DropProb: 100}
 	switch {
@@ -169,7 +173,9 @@ func genC14(seed uint64) *Scenario {
 		lastHeavy := false
 		for ph := 0; ph < nphases; ph++ {
 			n := 1 + r.n(4)
-			if nphases == 1 {
+			if crowd {
+				n = 1 + r.n(2)
+			} else if nphases == 1 {
 				n = 2 + r.n(5)
 				if c14Thorough && r.chance(1, 4) {
 					n += r.n(10) // longer histories
